@@ -122,11 +122,18 @@ def grep_forbidden():
     return hits
 
 
+def property_modules(pid):
+    """the property theorem files of one property: Props/<pid>.lean plus continuation files Props/<pid><Word>.lean"""
+    d = os.path.join(LEAN, "BpProofs", "Props")
+    return sorted(f[:-5] for f in os.listdir(d) if re.match(re.escape(pid) + r"[A-Za-z]*\.lean$", f))
+
+
 def property_theorems(pid):
-    """names of the theorems stated in lean/BpProofs/Props/<pid>.lean (namespace Bp.<pid>)"""
-    p = os.path.join(LEAN, "BpProofs", "Props", pid + ".lean")
-    txt = strip_comments(open(p).read())
-    names = re.findall(r"^\s*theorem\s+([A-Za-z0-9_'.]+)", txt, re.M)
+    """names of the theorems stated in lean/BpProofs/Props/<pid>*.lean (namespace Bp.<pid>)"""
+    names = []
+    for mod in property_modules(pid):
+        txt = strip_comments(open(os.path.join(LEAN, "BpProofs", "Props", mod + ".lean")).read())
+        names += re.findall(r"^\s*theorem\s+([A-Za-z0-9_'.]+)", txt, re.M)
     return ["Bp.%s.%s" % (pid, n) for n in names]
 
 
@@ -136,7 +143,8 @@ def audit(pid, timeout=1200):
     os.makedirs(os.path.join(LEAN, ".audit"), exist_ok=True)
     path = os.path.join(LEAN, ".audit", "Audit_%s_%d.lean" % (pid, os.getpid()))
     with open(path, "w") as f:
-        f.write("import BpProofs.Props.%s\n" % pid)
+        for mod in property_modules(pid):
+            f.write("import BpProofs.Props.%s\n" % mod)
         for t in thms:
             f.write("#print axioms %s\n" % t)
     try:
